@@ -126,6 +126,9 @@ func RenderPos(toks []gen.Tok, p Plan) (string, []Pos) {
 				if !c.SameLine && (eolPreferred || p.Mode == "random" && r.Intn(2) == 0) {
 					lead = "\n"
 				}
+				if p.Mode == "random" && lead == "\n" && r.Intn(4) == 0 {
+					lead = "\n\n" // blank line before a comment
+				}
 				if i == 0 && k == 0 {
 					lead = ""
 				}
@@ -139,6 +142,9 @@ func RenderPos(toks []gen.Tok, p Plan) (string, []Pos) {
 			tail := " "
 			if afterLineComment || eolPreferred {
 				tail = "\n"
+			}
+			if p.Mode == "random" && tail == "\n" && r.Intn(4) == 0 {
+				tail = "\n\n" // blank line after a comment
 			}
 			if i == len(toks) {
 				tail = "\n"
